@@ -144,16 +144,27 @@ def run_e2e(cfg, hist):
     events = []
     handled = []
 
+    async def act(k):
+        for a in steps[k][1]:
+            w.pre_read()  # the same read-only look at the account the synchronous driver takes before every action
+            w.apply(a)
+
     async def on_bar(ev):
         # bars are handled in history order (several may share a timestamp)
         k = len(handled)
         handled.append(k + 1)
         w.t = int((ev.when - T(0)) / exch.STEP)
+        w.mid = False
         # results are recorded in history order: the bar itself, then the actions
         w.results.append(None)
-        for a in steps[k][1]:
-            w.pre_read()  # the same read-only look at the account the synchronous driver takes before every action
-            w.apply(a)
+        if cfg.get("mid_actions") and steps[k][1]:
+            # the actions of this step are made by a job scheduled half a step later (public API: dispatcher.schedule)
+            async def job(k=k):
+                w.mid = True
+                await act(k)
+            d.schedule(ev.when + exch.STEP / 2, job)
+        else:
+            await act(k)
 
     async def on_order(ev):
         events.append(ev)
@@ -173,7 +184,12 @@ def run_e2e(cfg, hist):
     out, exc, loop = run_on_vloop(lambda loop: d.run(stop_signals=[]), patch_clock=False)
     if out != "returned":
         raise RuntimeError(f"e2e driver: dispatcher run ended with {out} {exc!r}")
-    obs = observe(e, w.results, events)
+    # order events produced by a job that ran in the dispatcher's final drain (after the last bar) were pushed but are never
+    # delivered: the run ends with the drain. They are taken from the source's queue so that both drivers are compared on
+    # what the exchange PRODUCED.
+    om = e._order_mgr
+    leftover = list(getattr(getattr(om, "_order_updates", None), "_queue", []) or [])
+    obs = observe(e, w.results, events + leftover)
     obs["handled"] = handled
     obs["nsteps"] = len(steps)
     return obs
